@@ -65,19 +65,53 @@ pub fn bb_squares(b: u64) -> Vec<String> {
     (0..64u8).filter(|s| b >> s & 1 == 1).map(sq_name).collect()
 }
 
-/// Build the library's builder from a reference position (square by square).
-pub fn builder_of(p: &Pos) -> BoardBuilder {
+/// Fill a builder through its setters in one of several call orders (the builder is a plain
+/// record of fields, so the order of the calls must not matter), or through `setup`.
+pub fn fill_builder(
+    squares: &[Option<(Col, Kind)>],
+    stm: Col,
+    castle: [bool; 4],
+    ep_file: Option<u8>,
+    order: u64,
+) -> BoardBuilder {
+    let epf = ep_file.map(|f| File::from_index(f as usize));
+    let (wr, br) = (rights(castle[WK], castle[WQ]), rights(castle[BK], castle[BQ]));
+    if order % 6 == 5 {
+        let men: Vec<(Square, Piece, Color)> =
+            squares.iter().enumerate().filter_map(|(i, x)| x.map(|(c, k)| (sq(i as u8), kind(k), col(c)))).collect();
+        return BoardBuilder::setup(men.iter(), col(stm), wr, br, epf);
+    }
     let mut bb = BoardBuilder::new();
-    for s in 0..64u8 {
-        if let Some((c, k)) = p.at(s) {
-            bb.piece(sq(s), kind(k), col(c));
+    // steps: 0 = men, 1 = side, 2 = rights, 3 = en passant
+    let orders: [[u8; 4]; 5] = [[0, 1, 2, 3], [3, 1, 0, 2], [2, 3, 0, 1], [1, 3, 2, 0], [3, 0, 2, 1]];
+    for step in orders[(order % 6) as usize] {
+        match step {
+            0 => {
+                for (i, x) in squares.iter().enumerate() {
+                    if let Some((c, k)) = x {
+                        bb.piece(sq(i as u8), kind(*k), col(*c));
+                    }
+                }
+            }
+            1 => {
+                bb.side_to_move(col(stm));
+            }
+            2 => {
+                bb.castle_rights(Color::White, wr);
+                bb.castle_rights(Color::Black, br);
+            }
+            _ => {
+                bb.en_passant(epf);
+            }
         }
     }
-    bb.side_to_move(col(p.stm));
-    bb.castle_rights(Color::White, rights(p.castle[WK], p.castle[WQ]));
-    bb.castle_rights(Color::Black, rights(p.castle[BK], p.castle[BQ]));
-    bb.en_passant(p.ep.map(|t| File::from_index((t & 7) as usize)));
     bb
+}
+
+/// Build the library's builder from a reference position (setter order chosen by the
+/// position's fingerprint).
+pub fn builder_of(p: &Pos) -> BoardBuilder {
+    fill_builder(&p.board, p.stm, p.castle, p.ep.map(|t| t & 7), crate::engine::fp(p) >> 13)
 }
 pub fn board_via_builder(p: &Pos) -> Result<Board, String> {
     Board::try_from(&builder_of(p)).map_err(|e| format!("{:?}", e))
